@@ -264,13 +264,37 @@ Definition valid (c : case) : Prop :=
   (exists content_of : N -> fstate, consistent content_of (init c) (hist c)) /\
   (forall a b, o_hash (oracle_of (tabs c)) a = o_hash (oracle_of (tabs c)) b -> a = b).
 
+(* ---------- [valid] as a boolean (C14.Props.C14_validb_valid) ----------
+   Both hypotheses are decidable from the case.  (1) the stat version determines the content: the pairs
+   (version, file state) that occur - initial state, edits, and the token of a stat fault together with the
+   content current at that call - form a function.  (2) the hash is injective on ALL strings: the oracle is the
+   table with the default 0 :: line for lines that are not in it, so it suffices that table values of different
+   keys differ and that no table value starts with the byte 0. *)
+Definition fstate_eq_dec : forall a b : fstate, {a = b} + {a <> b}.
+Proof. decide equality; [apply (list_eq_dec N.eq_dec)|apply N.eq_dec]. Defined.
+Fixpoint pairs_of (fs : N * fstate) (h : list hstep) : list (N * fstate) :=
+  match h with
+  | [] => []
+  | SEdit v f :: r => (v, f) :: pairs_of (v, f) r
+  | SCall _ :: r => pairs_of fs r
+  | SCallF _ (FIO _) :: r => pairs_of fs r
+  | SCallF _ (FStat tok) :: r => (tok, snd fs) :: pairs_of fs r
+  end.
+Definition functionalb (l : list (N * fstate)) : bool :=
+  forallb (fun p => forallb (fun q => negb (fst p =? fst q) || (if fstate_eq_dec (snd p) (snd q) then true else false)) l) l.
+Definition hash_table_okb (t : list (str * str)) : bool :=
+  forallb (fun p => match snd p with 0 :: _ => false | _ => true end) t &&
+  forallb (fun p => forallb (fun q => str_eqb (fst p) (fst q) || negb (str_eqb (snd p) (snd q))) t) t.
+Definition validb (c : case) : bool :=
+  functionalb (init c :: pairs_of (init c) (hist c)) && hash_table_okb (t_hash (tabs c)).
+
 Definition entry (x : sx) : sx :=
   match x with
   | L [cx; ox] =>
       match dec_case cx, dec_obs ox with
       | Some c, Some io =>
           let m := run_model c in
-          if covered c then L [ obs_sx m; L (map sxS (holds c m)); L (map sxS (holds c io)) ]
+          if covered c then L [ obs_sx m; L (map sxS (holds c m)); L (map sxS (holds c io)); L []; sxBool (validb c) ]
           else L [ sxS "oracle-table-miss"; L []; L [] ]
       | None, _ => sxS "bad-case"
       | _, None => sxS "bad-obs"
